@@ -14,6 +14,7 @@ pub mod c10;
 pub mod c11;
 pub mod c12;
 pub mod c13;
+pub mod c14;
 pub mod c16;
 pub mod c18;
 
@@ -50,6 +51,7 @@ table! {
     "C11" => c11::run, c11::replay;
     "C12" => c12::run, c12::replay;
     "C13" => c13::run, c13::replay;
+    "C14" => c14::run, c14::replay;
     "C16" => c16::run, c01::replay;
     "C18" => c18::run, c18::replay;
 }
